@@ -51,6 +51,13 @@ class InstanceMethodField(Field, InstanceMethodFieldMixin):
 
         return wrapper
 
+    def __getval__(self, cfg: Config) -> Callable:
+        """
+        :returns: the method bound to the configuration (what attribute access gives), so that
+            ``config["method"]`` and ``config["section.method"]`` resolve like any other field
+        """
+        return cfg.__dict__[self._key]
+
     def validate(self, cfg: Config, value: Any) -> Any:
         return value
 
